@@ -16,7 +16,7 @@ PROP = 'C18'
 MANIFEST = dict(
     text="Bounded symbolic check of the three integrations' request gate and reply construction: integration x base media type {the 3 documented types, near-misses (application/jsons, application/x+json, text/json), unrelated, header missing} "
          "x parameter suffix x body kind {call ok, call failing, notification, batch, invalid JSON} x status-by-error function (default / by error code, the chosen statuses picked by symbolic bits). "
-         "For werkzeug the Content-Type is `base + symbolic suffix (len <= 2)`, so the solver looks for ANY two characters that make a wrong media type pass or a right one fail; for Flask and aiohttp a symbolic header cannot cross their request objects "
+         "For werkzeug the Content-Type is `base + symbolic suffix (len <= 1 quick / <= 2 thorough)`, so the solver looks for ANY such characters that make a wrong media type pass or a right one fail; for Flask and aiohttp a symbolic header cannot cross their request objects "
          "(LocalProxy / C multidict), there the suffix comes from a concrete list. Oracle: media type (part before ';', trimmed, case-insensitive) documented => body == the dispatcher's text, JSON content type, status == status_by_error(codes) (200 default), empty 200 when the dispatcher returns nothing; "
          "otherwise 415 AS A RESPONSE and no method executed.",
     ref='5 C18',
@@ -24,8 +24,8 @@ MANIFEST = dict(
          "aiohttp / Flask signal 415 by raising their HTTPException, which those frameworks turn into a response (accepted); a raw WSGI app has no such layer, so for werkzeug the exception must not escape the WSGI callable.",
 )
 BOUNDS = {
-    'quick': {'media types': '8 bases x 4 concrete suffixes (+ symbolic suffix len<=2 after 3 bases for werkzeug)', 'bodies': '5 kinds', 'status functions': 'default, by-code'},
-    'thorough': {'media types': 'as quick, symbolic suffix len <= 3 for werkzeug', 'bodies': '5 kinds', 'status functions': 'as quick'},
+    'quick': {'media types': '8 bases x 4 concrete suffixes (+ symbolic suffix len<=1 after 3 bases for werkzeug)', 'bodies': '5 kinds', 'status functions': 'default, by-code'},
+    'thorough': {'media types': 'as quick, symbolic suffix len <= 2 after 7 bases for werkzeug', 'bodies': '5 kinds', 'status functions': 'as quick'},
 }
 STUBS = ['S5', 'S13', 'framework set-up (app objects, environ building) executed untraced']
 OUTSIDE = ['non-UTF-8 bodies', 'symbolic header values through Flask / aiohttp', 'routing', 'real sockets']
@@ -58,7 +58,7 @@ def obligations(tier):
                 if status == 'bycode' and body not in ('ok', 'fail', 'batch'):
                     continue
                 obs.append({'h': 'http', 'integ': integ, 'base': base, 'suffix': suffix, 'body': body, 'status': status})
-    n = 2 if tier == 'quick' else 3
+    n = 1 if tier == 'quick' else 2
     for base, body in it.product(BASES[:-1], ('ok', 'garbage')):
         if tier == 'quick' and (body != 'ok' or base not in ('application/json', 'application/json-rpc', 'application/jsons')):
             continue
